@@ -341,9 +341,17 @@ def run_program_pair(spec):
     return Case(vs, nt, ["faulty-stages=%d" % sum(1 for k in spec.values() if k[0] not in ("ok", "value"))], {"outcome": a_out})
 
 
+def _enum_programs():
+    import itertools
+    kinds = [["ok"], ["fail"], ["error"], ["skip"], ["value"], ["xfail"]]
+    for a, b, c, d in itertools.product(kinds, repeat=4):
+        yield {"setUp": a, "test": b, "tearDown": c, "cleanup": d}
+
+
 def subchecks(tier):
     q = tier == "quick"
     return [
-        Sub("deferred_states", run_case, s_case(), 1500 if q else 100000),
-        Sub("sync_runner_differential", run_program_pair, PROGRAM, 400 if q else 6 ** 4 * 3),
+        Sub("deferred_states", run_case, s_case(), 4000 if q else 200000),
+        Sub("sync_runner_differential", run_program_pair, enum=_enum_programs, enum_complete=True,
+            note="all 6^4 assignments of {ok, fail, error, skip, value, xfail} to setUp/test/tearDown/cleanup"),
     ]
